@@ -5,13 +5,13 @@ CONSTANTS
   Sys = "sys"
   Name = "name"
   Vault = "vault"
-  Coinbase = "cb"
+  Coinbase = "none"
   FeeSet = {0, 1}
   InitBal = 6
   MinStake = 2
   NamePrice = 1
   Reward = 1
-  MaxTxPerBlock = 2
+  MaxTxPerBlock = 3
   MaxBlocks = 2
   TxPool <- PoolSmall
   NonceModes <- AllModes
